@@ -11,6 +11,7 @@ import (
 	"encoding/hex"
 	"fmt"
 	"math/big"
+	"sort"
 	"strings"
 
 	sdk "github.com/cosmos/cosmos-sdk/types"
@@ -124,6 +125,23 @@ func flowScn(g *Gen, mix flowMix) *Flow {
 		p := f.pool[g.r.Intn(len(f.pool))]
 		s.nonces = append(s.nonces, types.Nonce{SourceDomain: uint32(p[0]), Nonce: p[1]})
 		f.used[p] = true
+	}
+	if g.r.Chance(1, 5) && s.nextNonce >= 0 {
+		// inbound records under Noble's own domain number whose nonces the outbound counter is about to reach: the two
+		// collections have nothing to do with each other
+		for i := int64(0); i < 3; i++ {
+			s.nonces = append(s.nonces, types.Nonce{SourceDomain: 4, Nonce: uint64(s.nextNonce + i + int64(g.r.Intn(2)))})
+		}
+		s.nonces = dedupNonces(s.nonces)
+		g.stats.Mut("own-domain-used-nonces")
+	}
+	if g.r.Chance(1, 4) {
+		// remote domains that differ from a linked one only above bit 16 (bit 8 for the byte-minded): a messenger is
+		// registered, no token pair is linked
+		for d := uint32(0); d < 3; d++ {
+			s.messengers[d+uint32(g.pickInt([]int{1 << 16, 1 << 16, 1 << 8, 1 << 24}))] = s.messengers[d]
+		}
+		g.stats.Mut("alias-domains")
 	}
 	if g.r.Chance(1, 10) {
 		// a long past: more than a hundred messages already received (beyond any default page size)
@@ -554,6 +572,14 @@ func (f *Flow) burnBody(src uint32) []byte {
 			tok = p.RemoteToken
 		}
 	}
+	if tok == nil && src >= 256 {
+		// an alias domain: the token linked for the domain it resembles
+		for _, p := range f.pairs {
+			if p.RemoteDomain == src&0xffff || p.RemoteDomain == src&0xff || p.RemoteDomain == src&0xffffff {
+				tok = p.RemoteToken
+			}
+		}
+	}
 	if tok == nil {
 		tok = g.r.Bytes(32)
 	}
@@ -573,6 +599,20 @@ func (f *Flow) Receive(usePool bool) {
 	g := f.g
 	from := f.acctStr()
 	src, nonce := f.pickPair(usePool)
+	if g.r.Chance(1, 6) {
+		// a source domain that only resembles a linked one (when the scenario registered such messengers)
+		var alias []uint32
+		for d := range f.messengers {
+			if d >= 256 {
+				alias = append(alias, d)
+			}
+		}
+		if len(alias) > 0 {
+			sort.Slice(alias, func(i, j int) bool { return alias[i] < alias[j] })
+			src = alias[g.r.Intn(len(alias))]
+			g.stats.Mut("rcv-alias-domain")
+		}
+	}
 	module := g.r.Chance(2, 3)
 	sender := f.messengers[src]
 	if sender == nil {
@@ -1002,4 +1042,16 @@ func genAttest(g *Gen, n int) {
 			}
 		}
 	}
+}
+
+func dedupNonces(l []types.Nonce) []types.Nonce {
+	seen := map[types.Nonce]bool{}
+	var out []types.Nonce
+	for _, n := range l {
+		if !seen[n] {
+			seen[n] = true
+			out = append(out, n)
+		}
+	}
+	return out
 }
